@@ -692,4 +692,19 @@ b("c15-cyk-children-reversed-display", "C15", "pyformlang/cfg/cyk_table.py",
 p("c15-p-cyk-children-extend", "C15", "pyformlang/cfg/cyk_table.py",
   "        if left_son is not None:\n            self.sons.append(left_son)\n        if right_son is not None:\n            self.sons.append(right_son)\n",
   "        self.sons.extend(son for son in (left_son, right_son) if son is not None)\n")
+b("c01-dfa-start-state-truthiness", "C01", FA + "deterministic_finite_automaton.py",
+  "        start_state = to_state(start_state)\n        self._transition_function = transition_function or TransitionFunction()\n        if start_state is not None:\n            self._start_state = {start_state}",
+  "        self._transition_function = transition_function or TransitionFunction()\n        if start_state:\n            start_state = to_state(start_state)\n            self._start_state = {start_state}",
+  "optional-identifier-tested-against-None:start_state")
+p("c01-p-dfa-start-state-truthy-after-conversion", "C01", FA + "deterministic_finite_automaton.py",
+  "        if start_state is not None:\n            self._start_state = {start_state}\n        else:",
+  "        if start_state:\n            self._start_state = {start_state}\n        else:")
+b("c13-pda-start-state-or", "C13", "pyformlang/pda/pda.py",
+  "        if start_state is not None:\n            start_state = self._pda_obj_creator.to_state(start_state)\n",
+  "        start_state = start_state and self._pda_obj_creator.to_state(start_state)\n",
+  "optional-identifier-tested-against-None:start_state")
+b("c10-cfg-start-symbol-truthiness", "C10", "pyformlang/cfg/cfg.py",
+  "        if start_symbol is not None:\n            start_symbol = to_variable(start_symbol)\n",
+  "        start_symbol = to_variable(start_symbol) if start_symbol else None\n",
+  "optional-identifier-tested-against-None:start_symbol")
 VARIANTS = V
